@@ -20,18 +20,36 @@ fn env() -> &'static Env {
 }
 
 fuzz_target!(|data: &[u8]| {
-    let mut frames = Vec::new();
-    let mut p = 0usize;
-    while p + 4 <= data.len() && frames.len() < 8 {
-        let hl = u16::from_le_bytes([data[p], data[p + 1]]) as usize;
-        let bl = u16::from_le_bytes([data[p + 2], data[p + 3]]) as usize;
-        p += 4;
-        let h = &data[p..(p + hl).min(data.len())];
-        p = (p + hl).min(data.len());
-        let b = &data[p..(p + bl).min(data.len())];
-        p = (p + bl).min(data.len());
-        frames.push(arrow_flight::FlightData { flight_descriptor: None, data_header: bytes::Bytes::copy_from_slice(h), app_metadata: bytes::Bytes::new(), data_body: bytes::Bytes::copy_from_slice(b) });
-    }
-    let e = env();
-    let _ = e.rt.block_on(e.svc.process_stream(frames.into_iter()));
+    guarded(std::panic::AssertUnwindSafe(|| {
+        let mut frames = Vec::new();
+        let mut p = 0usize;
+        while p + 4 <= data.len() && frames.len() < 8 {
+            let hl = u16::from_le_bytes([data[p], data[p + 1]]) as usize;
+            let bl = u16::from_le_bytes([data[p + 2], data[p + 3]]) as usize;
+            p += 4;
+            let h = &data[p..(p + hl).min(data.len())];
+            p = (p + hl).min(data.len());
+            let b = &data[p..(p + bl).min(data.len())];
+            p = (p + bl).min(data.len());
+            frames.push(arrow_flight::FlightData { flight_descriptor: None, data_header: bytes::Bytes::copy_from_slice(h), app_metadata: bytes::Bytes::new(), data_body: bytes::Bytes::copy_from_slice(b) });
+        }
+        let e = env();
+        let _ = e.rt.block_on(e.svc.process_stream(frames.into_iter()));
+    }));
 });
+
+/// libfuzzer-sys installs a panic hook that aborts the process, which would turn panics that
+/// the code under test catches itself (e.g. around the Arrow IPC decoder) into crashes.
+/// Replace it by a recording hook; anything that *escapes* the target body aborts explicitly.
+fn guarded(f: impl FnOnce() + std::panic::UnwindSafe) {
+    static INIT: std::sync::Once = std::sync::Once::new();
+    INIT.call_once(|| {
+        std::panic::set_hook(Box::new(|info| {
+            eprintln!("panicked: {}", info);
+        }));
+    });
+    if std::panic::catch_unwind(f).is_err() {
+        eprintln!("VIOLATION: a panic escaped the receiver / the oracle failed");
+        std::process::abort();
+    }
+}
